@@ -39,6 +39,14 @@ RULE = ("Samplers: generated axis-aligned boxes (dimension 1-5; unit / centred /
         "points the object reports at that moment. Control points are also handed in as one-shot generators ('ctor=generator'). Size regime (2-4 % "
         "each): counts 1000-5000, polylines with > 1000 edges, surfaces with > 1000 faces ('big-mesh'), as_polyline(100..150), as_surface with a "
         "side > 20; between the two requests of a 'second-call' case an independent mesh is sampled. "
+        "Order and roles: polyline edge lists as built / shuffled / reversed (open chains listed out of vertex order), unused vertices at id 0 / "
+        "a middle id / the last id of polylines and surfaces. Histories of the mesh samplers: vertices moved IN PLACE between two requests "
+        "('moved-in-place', 30 %), short-lived meshes of the same connectivity built, sampled, dropped and garbage collected before the mesh of the "
+        "case ('recycled-objects'), sampling through copy.copy / deepcopy / pickle round trips of the mesh, box, centre, curve or patch "
+        "('clone=...'), box.pad() or `centre += shift` between two requests, counts and parameters passed as numpy scalars. Values near special "
+        "ones: radius 1 +- 8e-6, boxes within 8e-6 of the unit cube, parameters a few ulps inside [0,1]; counts 255 / 256 / 257 and (box, sphere, "
+        "ball) 65535 / 65536 / 65537; curve degrees 16-18, 32, 33, 64, 66 and 67, 68, 70, 100, patch nets with one direction of degree 17, 33, 67, "
+        "68, 70 (about 1.5 % each, kept light: few parameters, small resolutions). "
         "numpy.random is seeded from the case. non-trivial = box differs from the unit cube and n>0 / "
         "radius != 1 or centre != 0 (n>0) / >=2 edges or faces and n>0 / degree >= 2 (curves) / n1 != n2 (patches); "
         "distinct = distinct realised cases.")
@@ -90,7 +98,7 @@ def draw_count(draw, rnd, huge_ok=False):
     c = rnd.random()
     if huge_ok and c > 0.99:
         return rnd.choice([65535, 65536, 65537])   # vectorised samplers only: a count around 2**16
-    if c < 0.02:
+    if c < 0.012:
         return rnd.choice([1000, 1024, 5000])      # size regime: well above the stated 0-400 and above any plausible internal threshold
     if c < 0.15:
         return rnd.choice(SPECIAL_COUNTS)
@@ -476,9 +484,10 @@ def history_extras(rnd, V, F=None):
     clone    - the mesh is sampled through copy.copy / copy.deepcopy / a pickle round trip of itself
     n_np     - the count is passed as numpy.int64"""
     out = {"V2": None, "recycle": None, "clone": None, "n_np": rnd.random() < 0.12}
-    if rnd.random() < 0.5:
+    big = len(V) > 500
+    if rnd.random() < 0.3:
         out["V2"] = stale_geometry(rnd, V, F, allow_dup=True)
-    if rnd.random() < 0.1:
+    if rnd.random() < 0.05 and not big:
         g = [stale_geometry(rnd, V, F, allow_dup=True) for _ in range(2)]
         out["recycle"] = [x for x in g if x] or None
     if rnd.random() < 0.12:
@@ -561,7 +570,7 @@ def build_mesh(case, kind, ctx, normals=False):
 def polylines(draw, mix, min_edges=1):
     n = max(draw(st.integers(2, 12)), mix.choice([2, 2, 3, 4, 5, 6, 8]))
     kind = mix.choice(["path", "cycle", "tree", "graph", "segments"])
-    if mix.random() < 0.02:
+    if mix.random() < 0.02 and min_edges == 1:                                            # (not in the 4000-draw share cases: too heavy)
         n, kind = mix.choice([1100, 1500]), mix.choice(["path", "cycle", "tree"])          # size regime: > 1000 edges
     rnd = np.random.RandomState(mix.randrange(2 ** 31))
     planar = mix.random() < 0.25
@@ -696,7 +705,7 @@ def fn_polyline(case, ctx):
         tmp = polyline_from(g, E)
         check_polyline_sample(tmp, tmp_case, 40, False, ctx, note=" [short-lived mesh, dropped and garbage collected before the next one is built]")
         del tmp
-        gc.collect()
+        gc.collect(1)           # the mesh <-> connectivity cycle is young: collecting generations 0-1 frees it (a full pass costs ~0.1 s)
     mesh = build_mesh(case, "polyline", ctx)
     if case.get("clone"):
         mesh = clone_of(mesh, case["clone"])
@@ -849,7 +858,7 @@ def fn_surface(case, ctx):
         tmp = surface_from(g, F)
         check_surface_sample(tmp, tmp_case, 40, False, wn, ctx, note=" [short-lived mesh, dropped and garbage collected before the next one is built]")
         del tmp
-        gc.collect()
+        gc.collect(1)           # the mesh <-> connectivity cycle is young: collecting generations 0-1 frees it (a full pass costs ~0.1 s)
     mesh = build_mesh(case, "surface", ctx, normals=wn or bool(case.get("again") and case["again"][2]))
     if case.get("clone"):
         mesh = clone_of(mesh, case["clone"])
@@ -1044,6 +1053,10 @@ def curve_case(draw):
     if rnd.random() < 0.2:
         custom = sorted(draw(st.lists(T_IN, min_size=2, max_size=9)))
     ts = [sig6(rnd.random()) for _ in range(rnd.randint(1, 3))]
+    if deg > 16:                                # (each evaluation costs deg^2/2 vector operations)
+        return {"P": P, "style": style, "ts_in": ts[:2] + draw(st.lists(T_IN, max_size=1)), "ts_out": [], "n": rnd.randint(2, 4), "n_again": 2,
+                "custom": None, "dir_seed": rnd.randrange(10 ** 6), "ctor": rnd.choice(CTORS + ["numpy-int"] * (style == "int")),
+                "edits": [[rnd.randrange(deg + 1), point(), "rebind"]] if rnd.random() < 0.3 else None, "t_np": False, "clone": None, "recycle": False}
     return {"P": P, "style": style, "ts_in": ts + draw(st.lists(T_IN, max_size=4)), "ts_out": draw(st.lists(T_OUT, max_size=3)),
             "n": rnd.randint(2, 9), "n_again": rnd.choice([100, 101, 150]) if rnd.random() < 0.04 else rnd.randint(2, 9),
             "custom": custom, "dir_seed": rnd.randrange(10 ** 6),
@@ -1109,8 +1122,7 @@ def fn_curve(case, ctx):
                 if ok:
                     ctx.check(ctx.close(np.asarray(val, dtype=float), RB.curve(Q, t), 1e-12, 2.0 * scale + 3.0), "curve:bernstein",
                               f"short-lived curve with control points {Q.tolist()}: evaluate({t!r}) = {val}")
-            del tmp
-            gc.collect()
+            del tmp                                     # no reference cycle: freed at once, its address can be reused by the next object
     arg = ctor()
     curve = BezierCurve(arg)
     ctx.check(curve.order == deg, "curve:order", f"order = {curve.order!r} for {deg + 1} control points")
@@ -1249,6 +1261,9 @@ def patch_case(draw):
     elif rnd.random() < 0.03:                   # size regime: a resolution well above the documented default of 20
         n1, n2 = rnd.choice([(24, 3), (3, 25), (21, 22)])
     uv = [[sig6(rnd.random()), sig6(rnd.random())] for _ in range(rnd.randint(1, 3))]
+    if high:
+        return {"P": P, "style": style, "uv_in": uv[:2], "uv_out": [], "n1": n1, "n2": n2, "dir_seed": rnd.randrange(10 ** 6),
+                "ctor": rnd.choice(CTORS), "edits": None, "t_np": False, "clone": None, "recycle": False}
     return {"P": P, "style": style, "uv_in": uv + draw(st.lists(st.tuples(T_IN, T_IN).map(list), max_size=3)),
             "uv_out": draw(st.lists(st.one_of(st.tuples(T_OUT, T_IN), st.tuples(T_IN, T_OUT), st.tuples(T_OUT, T_OUT)).map(list), max_size=3)),
             "n1": n1, "n2": n2, "dir_seed": rnd.randrange(10 ** 6),
@@ -1290,7 +1305,6 @@ def fn_patch(case, ctx):
                     ctx.check(ctx.close(np.asarray(val, dtype=float), RB.patch(Q, u, v), 1e-12, 2.0 * scale + 3.0), "patch:bernstein",
                               f"short-lived patch with control net {Q.tolist()}: evaluate({u!r},{v!r}) = {val}")
             del tmp
-            gc.collect()
     arg = ctor()
     patch = BezierPatch(arg)
     ctx.check(tuple(patch.order) == (m, n), "patch:order", f"order = {patch.order!r} for a {m + 1} x {n + 1} control net")
